@@ -353,20 +353,9 @@ class Parser:
         stream.expect(TOKEN_SLICE_STEP)
         step_token = stream.current
 
-        if not start_token.value:
-            start: Optional[int] = None
-        else:
-            start = int(start_token.value)
-
-        if not stop_token.value:
-            stop: Optional[int] = None
-        else:
-            stop = int(stop_token.value)
-
-        if not step_token.value:
-            step: Optional[int] = None
-        else:
-            step = int(step_token.value)
+        start = self._parse_slice_index(start_token)
+        stop = self._parse_slice_index(stop_token)
+        step = self._parse_slice_index(step_token)
 
         return SliceSelector(
             env=self.env,
@@ -375,6 +364,17 @@ class Parser:
             stop=stop,
             step=step,
         )
+
+    def _parse_slice_index(self, token: Token) -> Optional[int]:
+        if not token.value:
+            return None
+        try:
+            return int(token.value)
+        except ValueError as err:
+            # A lone minus sign, for example.
+            raise JSONPathSyntaxError(
+                f"invalid slice index {token.value!r}", token=token
+            ) from err
 
     def parse_selector_list(self, stream: TokenStream) -> ListSelector:  # noqa: PLR0912
         """Parse a comma separated list JSONPath selectors from a stream of tokens."""
